@@ -107,6 +107,22 @@ def main():
             mod.replay(ctx, sc.get("scenario", sc))
         else:
             mod.run(ctx)
+            if ctx.quick and ctx.drift and not ctx.violations and os.environ.get("VERIF_NO_ESCALATION") != "1":
+                # DESIGN 2.4: the implementation layer no longer describes this code, so the exhaustive model result does
+                # not transfer to it: fall back to the deepest exploration of the real code that exists for this property
+                print(f"SPEC-DRIFT property={pid} escalating to the thorough tier ({len(ctx.drift)} drifting step(s))", flush=True)
+                deep = Ctx(pid, "thorough", a.seed)
+                try:
+                    mod.run(deep)
+                finally:
+                    shutil.rmtree(deep.scratch, ignore_errors=True)
+                ctx.violations += deep.violations
+                for k, h in deep.known_hits.items():
+                    ctx.known_hits.setdefault(k, h)
+                ctx.cov["escalated_to_thorough"] = {k: deep.cov[k] for k in ("states", "evaluations", "traces_validated_against_impl")}
+                ctx._distinct |= deep._distinct
+                for k in ("states", "transitions", "evaluations", "traces_validated_against_impl"):
+                    ctx.cov[k] += deep.cov[k]
     except TLCError as e:
         print(f"MACHINERY-FAILURE property={pid} {e}", flush=True)
         rc = 2
